@@ -210,6 +210,7 @@ func (proc *Processor) ExecuteStatement(ctx context.Context, stmt parser.Stateme
 					var writer io.Writer
 					if proc.Tx.Session.OutFile() != nil {
 						writer = proc.Tx.Session.OutFile()
+						exportOptions.Color = false
 					} else {
 						writer = proc.Tx.Session.Stdout()
 					}
